@@ -97,7 +97,7 @@ def key_norm(k):
     return norm_def(k)
 
 
-def invariant(w, with_counters=True, named=False):
+def invariant(w, with_counters=True, named=False, focus=()):
     """Representation invariant of the table model (Inv_T)."""
     r = z3.Int('r_inv')
     k = z3.Const('k_inv', DbVal)
@@ -110,7 +110,21 @@ def invariant(w, with_counters=True, named=False):
     e = z3.Select(z3.Select(idx, k), b)
     bw = z3.ForAll([k, b], z3.Implies(e != 0, z3.And(
         z3.Select(live, e), key_norm(z3.Select(key, e)) == k, z3.Select(raw, e) == b)))
-    parts = [('index_forward', fw), ('index_backward', bw), ('card_nonneg', w['T.card'] >= 0)]
+    if focus and named:
+        # case split of the backward direction on the index entries the operation touched
+        insts = []
+        away = []
+        for fk, fb in focus:
+            e1 = z3.Select(z3.Select(idx, key_norm(fk)), fb)
+            insts.append(z3.Implies(e1 != 0, z3.And(z3.Select(live, e1), key_norm(z3.Select(key, e1)) == key_norm(fk),
+                                                   z3.Select(raw, e1) == fb)))
+            away.append(z3.Not(z3.And(k == key_norm(fk), b == fb)))
+        rest = z3.ForAll([k, b], z3.Implies(z3.And(e != 0, *away), z3.And(
+            z3.Select(live, e), key_norm(z3.Select(key, e)) == k, z3.Select(raw, e) == b)))
+        bw_parts = [('index_backward.touched', z3.And(*insts)), ('index_backward.rest', rest)]
+    else:
+        bw_parts = [('index_backward', bw)]
+    parts = [('index_forward', fw)] + bw_parts + [('card_nonneg', w['T.card'] >= 0)]
     if with_counters:
         parts += [('count', w['S.count'] == w['T.card']), ('size', w['S.size'] == SUM(w['T.size'], live))]
     if named:
